@@ -26,6 +26,7 @@ type pipe struct {
 	werr         error
 	werr1        bool // fail exactly the next write
 	stuck        bool
+	wpass        int    // while stuck: that many Writes are let through all the same (a slow consumer, one envelope at a time)
 	onWrite      func() // one-shot: runs inside the next accepted Write, after the envelope is queued and logged
 	cap          int    // > 0: a Write blocks while cap envelopes are queued unread (back-pressure, like an unbuffered channel or a full socket)
 	wake         chan struct{}
@@ -84,7 +85,10 @@ func (p *pipe) Write(ctx context.Context, r *goat.Rpc) error {
 			p.mu.Unlock()
 			return err
 		}
-		if !p.stuck && (p.cap == 0 || len(p.q) < p.cap) {
+		if (!p.stuck || p.wpass > 0) && (p.cap == 0 || len(p.q) < p.cap) {
+			if p.stuck {
+				p.wpass--
+			}
 			var cp *goat.Rpc
 			if p.ser {
 				b, err := proto.Marshal(r)
